@@ -308,11 +308,16 @@ def dealer_pending_drain(h):
 
 def replay_dealer_pending_drain(model, params, role):
     ch = dict(map(tuple, model.get("_choices", [])))
-    n = max(5, 1 + ch.get("queued", 0))
+    opts_n = params.get("queued_options", [1, 2, 3, 4, 17, 33])
+    n = opts_n[ch.get("queued", 0)]
     if "messages-stay-in-the-pending-queue" in role:
+        if n >= 17:
+            # a long backlog built while no peer exists at all: all sends before connect()
+            return f"dealer_burst {4 * n} pre\n", (lambda out: "STUCK" in out), \
+                f"DEALER sends {4 * n} messages, then connects to a ROUTER; expecting some of them never to arrive"
         # public API: the messages are sent right after connect(), i.e. while the connection is still being established
-        return f"dealer_burst {n}\n", (lambda out: "STUCK" in out), \
-            f"DEALER connects to a ROUTER and sends {n} messages at once; expecting some of them never to arrive"
+        return "dealer_burst 5\n", (lambda out: "STUCK" in out), \
+            "DEALER connects to a ROUTER and sends 5 messages at once; expecting some of them never to arrive"
     return None
 
 
